@@ -46,13 +46,8 @@ Lemma tr_node_rep : forall body count st,
    let idx := t_label st in
    let? '(cs1, st1) := tr_nodes body (with_label st (idx + 1)) in
    let post := get_dependency_state st1 ds in
-   if set_eqb pre post then
-     let stable := if count <=? 1 then true
-                   else match tr_nodes body (with_label st1 (idx + 1)) with
-                        | Ok (cs1', st1') => cmds_same cs1 cs1' && t_stable st1'
-                        | Err _ => false
-                        end in
-     Ok (CLabel idx count :: cs1 ++ [CJmp idx], with_stable st1 (t_stable st1 && stable))
+   if set_eqb pre post && entry_unchanged st st1 then
+     Ok (CLabel idx count :: cs1 ++ [CJmp idx], st1)
    else
      if 0 <? count - 1 then
        let? '(cs2, st2) := tr_nodes body st1 in
